@@ -108,7 +108,8 @@ LenContradiction(items) ==
      IsLit(items[i]) /\ IsLit(items[j]) /\ items[i].b > items[j].b
 BothLowerOrUpper(items) ==
   Cardinality({items[i].w : i \in Rules(items, LowerKinds)}) > 1 \/ Cardinality({items[i].w : i \in Rules(items, UpperKinds)}) > 1
-BadRegexLit(items) == \E i \in DOMAIN items : items[i].w = "regex" /\ items[i].fn = "re_invalid" /\ items[i].sp = "lit"
+\* a regex literal that Regex::new refuses: a syntax error ("re_invalid") or a pattern whose program exceeds the size limit ("re_toobig")
+BadRegexLit(items) == \E i \in DOMAIN items : items[i].w = "regex" /\ items[i].fn \in {"re_invalid", "re_toobig"} /\ items[i].sp = "lit"
 
 HasFiniteStd(fam, items) == ValShape(fam, items) = "std" /\ HasW(items, "finite")
 Validated(fam, items, hasBlock) == hasBlock
